@@ -140,6 +140,7 @@ def enumerate_cases(tier):
     yield from _twin_cases()
     yield from _owned_cases()
     yield from _resite_cases()
+    yield from _empty_ero_cases()
     for t in PINNED_SERVICE:
         for n in range(0, 5):
             if t == "PortMirror" and n != 1:
@@ -205,6 +206,16 @@ def _resite_cases():
                             {"type": t, "ifs": [["DedicatedPort", s] for s in pl], "declared": declared, "props": []}]}
 
 
+def _empty_ero_cases():
+    """the forbidden / allowed property 'ero' present as a route object WITHOUT hops"""
+    for t in PINNED_SERVICE:
+        if t == "PortMirror":
+            continue
+        for n in (1, 2):
+            yield {"kind": "svc", "services": [{"type": t, "ifs": [["DedicatedPort", 0]] * n, "declared": None,
+                                                "props": ["ero"], "ero_empty": True}]}
+
+
 def _twin_cases():
     """interfaces that end up with the SAME library-generated service-port name ('<node>-<interface>'): sub-interfaces
     of one name on different ports of one node. Counting must go by interface, not by name."""
@@ -226,6 +237,7 @@ def _multi(draw):
         svcs.append({"type": t, "late": 0 if t == "PortMirror" else draw(st.sampled_from([0, 0, 1, 2])),
                      "rehome": t != "PortMirror" and draw(st.integers(0, 3)) == 0,
                      "twins": draw(st.integers(0, 3)) == 0,
+                     "ero_empty": draw(st.booleans()),
                      "owner": None if t == "PortMirror" else draw(st.sampled_from([None, None, None, 0, 1, 2])),
                      "ifs": [[draw(st.sampled_from(KINDS)), draw(st.integers(0, 2))] for _ in range(n)],
                      "declared": draw(st.sampled_from([None, None, "match", "other"])),
@@ -364,7 +376,8 @@ def run_case(case):
                     kw[p] = "http://controller.example/x"
                 elif p == "ero":
                     path = Path()
-                    path.set_symmetric(["a", "b"])
+                    # (an explicit route object with no hops in it is still the property being set)
+                    path.set_symmetric([] if svc.get("ero_empty") else ["a", "b"])
                     e = ERO()
                     e.set(payload=path)
                     kw[p] = e
